@@ -26,7 +26,7 @@ _T = {
     "C04": ("V9 streams decode exactly as the governing template says (also with the RFC 3954 record count in the header when the packet ends its buffer: Props/C04c.lean; template-record parsers regenerated from the derive(Nom) declarations: Props/NomGen.lean): expected view computed by the specification (Spec/Expected.lean: latest-definition-wins template memory, per-type big-endian interpretation) from the abstract stream that the RFC 3954 writer Spec.enc encoded", "outcome, packets, caches"),
     "C05": ("IPFIX streams decode exactly as RFC 7011 and the template say (enterprise fields, variable-length prefixes, zero-length fields, options templates); expected view from Spec/Expected.lean", "outcome, packets, caches"),
     "C06": ("template cache: the caches after any call ARE the replay of the template records reported by it (Props/C06c.lean: for arbitrary bytes; V9 needs the clause that the result does not end in a V9 partial-parse error, with a witness why), latest definition wins (either kind), persists across calls, independent of the split into calls, untouched by V5/V7 / disallowed versions, isolated per parser instance and protocol", "outcome, packets, caches"),
-    "C07": ("data for an unknown template id never yields records (V9: error; IPFIX: set absent), caches unchanged, earlier packets reported, later decodes normally", "outcome, packets, caches"),
+    "C07": ("data for an unknown template id never yields records (V9: error; IPFIX: set absent), caches unchanged, earlier packets reported, later decodes normally; also for an id the CALLER removed from the public cache maps (operation forget; Props/C07d.lean)", "outcome, packets, caches"),
     "C08": ("V5/V7 re-export reproduces the bytes each packet occupied (full strength); structure -> bytes -> structure holds exactly for structures whose DERIVED fields (version, protocol_type) carry what the parser derives (Props/C08b.lean: necessary and sufficient; the two deviations are recorded known findings); emission order generated from to_be_bytes and compared with the layout", "outcome, packets, exports"),
     "C09": ("V9 re-export reproduces the bytes each accepted packet occupied (lossy value kinds are recorded known findings)", "outcome, packets, exports"),
     "C10": ("IPFIX re-export reproduces header.length bytes (lossy value kinds, enterprise bit, variable-length prefixes, dropped sets are recorded known findings)", "outcome, packets, exports"),
